@@ -14,6 +14,7 @@ import (
 // obligations
 
 type obligation struct {
+	excluded bool // generated but not claimed by this unit: never proved, assumed by later obligations
 	name         string
 	kind         string // safe, pre, post, inv-init, inv-keep, dec, frame, lock, iface, assert, cover
 	fn           string // top-level function under verification
@@ -34,6 +35,7 @@ type showTerm struct {
 
 // gen holds one verification unit (one top-level function with everything inlined into it).
 type gen struct {
+	liteCon map[*contract]*contract
 	w             *world
 	top           *ssa.Function
 	decls         []string
@@ -565,4 +567,24 @@ func (g *gen) wfInstances(kind, ref, off, guard string) {
 		g.specDefs[key] = true
 		g.assume(fmt.Sprintf("(< %s %s)", sel(bs[i].refs[kind], ref, off), bs[i].ac))
 	}
+}
+
+// topContract: the contract of the function under check as this unit sees it. A typestate (lite) unit has no heap
+// contents, so the value clauses (requires, ensures, invariants, measures, frames) do not exist for it: only the order
+// rules and flags remain. The value clauses are decided by the non-lite unit of the same function, if one is registered.
+func (g *gen) topContract(fn *ssa.Function) *contract {
+	c := g.w.contractOf(fn)
+	if c == nil || !g.lite {
+		return c
+	}
+	if g.liteCon == nil {
+		g.liteCon = map[*contract]*contract{}
+	}
+	if s, ok := g.liteCon[c]; ok {
+		return s
+	}
+	s := &contract{key: c.key, orders: c.orders, inline: c.inline, noinline: c.noinline, line: c.line,
+		invariants: map[int][]clause{}, decreases: map[int]string{}, loopAssign: map[int][]string{}}
+	g.liteCon[c] = s
+	return s
 }
